@@ -344,6 +344,29 @@ pub fn check(c: &TouchCase, probe: &Probe) -> Verdict {
         if want_g != got_g {
             return Verdict::Fail(show(&format!("with path arguments {gpaths:?}: diagnostics differ from (full scan of those files) + (diff-mode result of the others). expected {want_g:?}; observed {got_g:?}"), &gr));
         }
+        // the listing with path arguments: every block of the matching files (flags by edit class), the selected ones of the others
+        probe.child();
+        let mut la: Vec<&str> = vec!["list"];
+        la.extend(gpaths.iter());
+        let gl = sb.bw(&BwRun::diff(&la, diff.as_bytes()));
+        if gl.timed_out || gl.panicked() || gl.code != Some(0) {
+            return Verdict::Fail(show("`list` with path arguments in diff mode failed", &gl));
+        }
+        let glist = match parse_listing(&gl.stdout) {
+            Ok(l) => l,
+            Err(e) => return Verdict::Fail(show(&e, &gl)),
+        };
+        let got_l: BTreeMap<(String, String), bool> = glist.iter().map(|l| ((l.file.clone(), l.name.clone()), l.modified)).collect();
+        let want_l: BTreeMap<(String, String), bool> = files
+            .iter()
+            .flat_map(|f| {
+                let all = gpaths.contains(&f.path.as_str());
+                f.extents.iter().filter(move |e| all || e.selected).map(|e| ((f.path.clone(), e.name.clone()), e.content_modified))
+            })
+            .collect();
+        if got_l != want_l {
+            return Verdict::Fail(show(&format!("`list` with path arguments {gpaths:?}: expected (block -> is_content_modified) {want_l:?}; observed {got_l:?}"), &gl));
+        }
         probe.class("with-path-arguments");
     }
     Verdict::Pass
